@@ -8,6 +8,7 @@ import (
 	"golang.org/x/tools/go/ssa"
 	"golang.org/x/tools/go/ssa/ssautil"
 	"go/constant"
+	"go/types"
 	"encoding/json"
 	"flag"
 	"fmt"
@@ -559,11 +560,12 @@ func cmdCheck(args []string) {
 		"single thread of execution: shared words (atomics, mapped file) are volatile; nothing is proved about other threads",
 		"panic unwinding is not modelled: functions are proved panic-free instead",
 		"goroutine bodies and timer callbacks are not verified",
+		"float32 and float64 share one sort (IEEE double): a conversion between them is the identity for the engine, so precision lost in a float32 is not seen (types whose precision matters are pinned structurally)",
 	}
 	for a := range assumed {
 		trusted = append(trusted, "assumed library contract: "+a)
 	}
-	sort.Strings(trusted[6:])
+	sort.Strings(trusted[7:])
 	var unm []string
 	for u := range unmodelled {
 		unm = append(unm, u)
@@ -726,7 +728,16 @@ func (e *Engine) ProvePin(pd *ConstPin) *ProofResult {
 	obj := sp.Pkg.Scope().Lookup(pd.Name)
 	goal := False()
 	desc := "constant " + pd.Name + " == " + pd.Lit
-	if c, ok := obj.(interface{ Val() constantValue }); ok {
+	if tn, ok := obj.(*types.TypeName); ok {
+		// a pinned type: its underlying type is the one named (e.g. a report ID is a float64, not a float32)
+		got := types.TypeString(tn.Type().Underlying(), nil)
+		desc = "type " + pd.Name + " has the underlying type " + pd.Lit
+		if got == pd.Lit {
+			goal = True()
+		} else {
+			desc += " (found " + got + ")"
+		}
+	} else if c, ok := obj.(interface{ Val() constantValue }); ok {
 		got := c.Val().ExactString()
 		want := pd.Lit
 		if got == want {
